@@ -120,6 +120,11 @@ func (c Cand) funcSrc(name string) string {
 		return fmt.Sprintf("let %s (u:%s) (o:Outer) =\n  match o with\n  | First ->\n%s  | Second -> 0\n", name, targ, c.matchSrc("u", 4))
 	case "outerlastarm":
 		return fmt.Sprintf("let %s (u:%s) (o:Outer) =\n  match o with\n  | Second -> 0\n  | First ->\n%s", name, targ, c.matchSrc("u", 4))
+	case "outerarmdefault":
+		// the `| _ ->` that follows belongs to the outer match (it sits at the column of the outer arms)
+		return fmt.Sprintf("let %s (u:%s) (o:Outer) =\n  match o with\n  | First ->\n%s  | _ -> 0\n", name, targ, c.matchSrc("u", 4))
+	case "strarmdefault":
+		return fmt.Sprintf("let %s (u:%s) (s:string) =\n  match s with\n  | \"a\" ->\n%s  | _ -> 0\n", name, targ, c.matchSrc("u", 4))
 	case "lambda":
 		return fmt.Sprintf("let %s (us:[]%s) =\n  let f = fun (w:%s) ->\n%s  slice.Map f us\n", name, targ, targ, c.matchSrc("w", 10))
 	case "localfunc":
@@ -547,7 +552,7 @@ func TestMatchExhaustive(t *testing.T) {
 
 // --- sampled contexts ------------------------------------------------------------------
 
-var ctxs = []string{"letrhs", "ifbranch", "elsebranch", "outerarm", "outerlastarm", "lambda", "localfunc", "letbound", "direct"}
+var ctxs = []string{"letrhs", "ifbranch", "elsebranch", "outerarm", "outerlastarm", "outerarmdefault", "strarmdefault", "lambda", "localfunc", "letbound", "direct"}
 var decls = []string{"plain", "plain", "generic", "andgroup", "otherfile"}
 
 func TestMatchContexts(t *testing.T) {
